@@ -64,7 +64,9 @@ Record view := {
   v_present : bool;
   v_stopped : bool;
   v_eps : list (option (bool * bool));     (* per endpoint of the universe: Some (disabled, ready) *)
-  v_fcs : list (string * fkind);
+  v_fcs : list (string * fkind);           (* what GetFlowSchema(name).String() REPORTS *)
+  v_enf : list fkind;                      (* what that limiter ENFORCES: slots admitted by the idle max-in-flight
+                                              bucket / rate and burst of the token bucket TryAcquire consults *)
   v_gates : list bool;
   v_probes : list (option probe_res);
   v_names : list string;
@@ -74,7 +76,7 @@ Record view := {
 }.
 
 Definition absent_view : view :=
-  {| v_present := false; v_stopped := false; v_eps := []; v_fcs := []; v_gates := []; v_probes := [];
+  {| v_present := false; v_stopped := false; v_eps := []; v_fcs := []; v_enf := []; v_gates := []; v_probes := [];
      v_names := []; v_tls := (false, 0, 0); v_verify := (false, 0); v_keys := [] |}.
 
 Definition view_info (P : probes) (i : info) (keys : list bool) : view :=
@@ -82,6 +84,7 @@ Definition view_info (P : probes) (i : info) (keys : list bool) : view :=
      v_stopped := i_stopped i;
      v_eps := map (fun e => option_map (fun d => (d, false)) (em_get e (i_eps i))) (pb_eps P);
      v_fcs := map (fc_get i) (pb_schemas P);
+     v_enf := map (fun n => snd (fc_get i n)) (pb_schemas P);   (* a limiter enforces exactly what it is configured with *)
      v_gates := i_gates i;
      v_probes := map (match_attributes P i) (pb_verbs P);
      v_names := load_names i;
